@@ -35,6 +35,7 @@ type seqOpts struct {
 	MaxChunks int
 	AdvChunk  bool // advance the clock on chunked stacks too
 	TwoTier   bool // only the L1/L2 configurations
+	GetE      bool // include get-with-expiry among the generated commands
 	Probe     func(sc Scenario, i int, st *Stack, d *Driver, ob StepObs) []Violation
 }
 
@@ -126,8 +127,8 @@ func countDistribution(rep *Report, sc Scenario) {
 			default:
 				rep.Distribution["ttl:absolute-past"]++
 			}
-		case "get":
-			rep.Distribution[fmt.Sprintf("getkeys:%d", len(s.Cmd.Keys))]++
+		case "get", "gete":
+			rep.Distribution[fmt.Sprintf("%skeys:%d", s.Cmd.Kind, len(s.Cmd.Keys))]++
 		}
 	}
 }
@@ -142,7 +143,7 @@ func runSequences(rep *Report, tier string, seed int64, perCfg int, o seqOpts, a
 			continue
 		}
 		for n := 0; n < perCfg; n++ {
-			g := &Gen{r: rand.New(rand.NewSource(seed*1000003 + int64(ci)*7919 + int64(n)))}
+			g := &Gen{r: rand.New(rand.NewSource(seed*1000003 + int64(ci)*7919 + int64(n))), getE: o.GetE}
 			sc := genSequence(g, fmt.Sprintf("%s-%d-%d", rep.Property, ci, n), cfg, o)
 			sc.Probe = o.Probe
 			var out Outcome
@@ -189,7 +190,7 @@ func runSequences(rep *Report, tier string, seed int64, perCfg int, o seqOpts, a
 			}
 			if div != nil {
 				rep.Divergences = append(rep.Divergences, div)
-				if len(rep.Divergences) >= 5 {
+				if enoughDivergences(rep, 4) {
 					rep.Distinct = len(distinct)
 					return
 				}
@@ -211,7 +212,7 @@ func init() {
 			per, steps = 60, 40
 		}
 		rep.Rule = "seeded random command sequences (9 data commands, multi-key and quiet gets, 6-key alphabet, value lengths dense around chunk boundaries, TTL alphabet) on every stack configuration, one command in flight at a time over text/binary x main/batch connections; each step compares reply bytes, both backend request traces and both backend contents with the Lean model; a case is non-trivial when at least one reply carried a value; distinct = distinct (configuration, sequence) pairs"
-		runSequences(rep, tier, seed, per, seqOpts{Steps: steps, MaxChunks: 3}, nil)
+		runSequences(rep, tier, seed, per, seqOpts{Steps: steps, MaxChunks: 3, GetE: true}, nil)
 	}
 }
 
